@@ -16,6 +16,7 @@ PROPS_FOR = {                      # which clauses the judge evaluates for a che
     'C01': ['C01'],
     'C03': ['C03'],
     'C05': ['C05'],
+    'C04': ['C04'],
 }
 
 
@@ -178,6 +179,24 @@ def _exec_wide(args):
             big = [b for b in big if F(float(b)) == b]
             out.append(x_store.observe(fx, np, (s, w, f), (r, 'saturate'), big, 'pyfloat', rng.choice(sroutes), props, False,
                                        {'huge': True}))
+    # narrow NumPy integer carriers at the boundary between their own width and the word: n_word = bits + n_frac (+-1)
+    for _ in range(max(2, count // 6)):
+        bits = rng.choice([8, 16, 32])
+        f = rng.choice([0, 4, 1])
+        s = rng.random() < 0.75
+        w = bits + f + rng.choice([0, 0, -1, 1])
+        if not (1 <= w <= 52):
+            continue
+        r, o = rng.choice(ROUND), (rng.choice(OVF) if pid != 'C03' else 'wrap')
+        top = 1 << bits
+        ints = sorted({0, 1, top // 2 - 1, top // 2, top // 2 + 1, top - 1, top - 2, rng.randrange(top), rng.randrange(top)})
+        uc = {8: 'np.uint8', 16: 'np.uint16', 32: 'np.uint32'}[bits]
+        out.append(x_store.observe(fx, np, (s, w, f), (r, o), [F(i) for i in ints], uc, rng.choice(sroutes), props, False))
+        out.append(x_store.observe(fx, np, (s, w, f), (r, o), [F(i) for i in ints], 'ndarray-u%d' % bits, rng.choice(['ctor', 'call', 'set_val', 'setitem-slice']), props, True))
+        sints = sorted({-top // 2, -top // 2 + 1, -1, 0, top // 2 - 1, rng.randrange(-top // 2, top // 2)})
+        if bits <= 16:
+            out.append(x_store.observe(fx, np, (s, w, f), (r, o), [F(i) for i in sints], 'ndarray-i%d' % bits, rng.choice(['ctor', 'call', 'set_val']), props, True))
+        out.append(x_store.observe(fx, np, (s, w, f), (r, o), [F(i) for i in sints], {8: 'np.int8', 16: 'np.int16', 32: 'np.int32'}[bits], rng.choice(sroutes), props, False))
     if pid == 'C03':
         from .. import x_arith
         # register clause on wide words: chains of same-format wrap-mode + - *  (products only where no fractional narrowing of
